@@ -24,7 +24,7 @@ REQUIRED_BUCKETS = ['qe:scalar', 'qe:vector', 'qe:spectrum', 'qe:offset-table', 
                     'bayer:k=2', 'bayer:k=3', 'bayer:k=4', 'bayer:os=1', 'bayer:os=2', 'bayer:os>=3', 'bayer:nonsquare',
                     'bayer:channels', 'bayer:spectrum-qe', 'bayer:unit!=nm', 'gain:scalar', 'gain:poly', 'gain:pixel', 'gain:pixel-poly', 'adc:negative',
                     'adc:saturated', 'adc:dtype', 'adc:warn', 'adc:max==capacity', 'adc:small-int-frame', 'bayer:cube-not-float64', 'adc:beyond-dtype-range', 'adc:capacity=0',
-                    'qe:narrow-qe-vector', 'qe:table-ends-other-unit', 'qe:single-wavelength', 'cube:narrow-float']
+                    'qe:narrow-qe-vector', 'qe:table-ends-other-unit', 'qe:single-wavelength', 'cube:narrow-float', 'unit:alias']
 REQUIRED_ANCHORS = ['probe:collect_charge', 'probe:collect_charge_bayer', 'probe:adc', 'anchor:qe_asarray',
                     'anchor:format_bayer_string']
 REQUIRED_ORACLES = ['charge=sum', 'charge:qe-forms', 'charge:linear', 'bayer=pattern', 'bayer:equal-qe=mono',
@@ -219,7 +219,12 @@ def workload(ctx, lentil):
                 spec = R.Spectrum(sw * sm.wave_factor('nm', qunit), sv, waveunit=qunit)
                 fps = probe.fingerprint(spec)
                 out_v = D.collect_charge(img, wave, qv if kind == 'vector' else list(qv), waveunit=unit)
-                out_s = D.collect_charge(img, wave, spec, waveunit=unit)
+                unit_arg = unit
+                if i % 3 == 1:
+                    # any name Unit() accepts for the unit of the slice wavelengths
+                    unit_arg = {'m': 'meter', 'um': 'micron', 'nm': 'nanometer', 'angstrom': 'Angstrom'}.get(unit.lower(), unit)
+                    ctx.bucket('unit:alias')
+                out_s = D.collect_charge(img, wave, spec, waveunit=unit_arg)
                 ref = np.tensordot(qv, img, axes=(0, 0))
                 out = out_v if kind == 'vector' else out_s
                 ctx.close('charge:qe-forms', out_s, out_v, 1e-9, 'charge|spectrum-vs-vector',
